@@ -1,9 +1,19 @@
 // L4 (derivatives): the manager invariant including the derivative cache
 
-// m2's term table extends m1's (the cache may differ)
+// m2's term table extends m1's and every cached derivative of m1 is still cached, unchanged, in m2
 pub open spec fn grows(m2: ReManager, m1: ReManager) -> bool {
     m1.store.terms@.len() <= m2.store.terms@.len()
         && (forall|i: int| 0 <= i < m1.store.terms@.len() ==> #[trigger] m2.store.terms@[i] == m1.store.terms@[i])
+        && cache_stable(m2, m1)
+}
+
+pub open spec fn cache_stable(m2: ReManager, m1: ReManager) -> bool {
+    forall|k: DerivKey| #[trigger] m1.deriv_cache@.contains_key(k) ==> m2.deriv_cache@.contains_key(k) && m2.deriv_cache@[k] == m1.deriv_cache@[k]
+}
+
+// the manager's table of derivatives records y as the derivative of x for class cid
+pub open spec fn tderiv(m: ReManager, x: RegLan, cid: ClassId, y: RegLan) -> bool {
+    m.deriv_cache@.contains_key(DerivKey(x, cid)) && m.deriv_cache@[DerivKey(x, cid)] == y
 }
 
 // character x belongs to class cid of term e
